@@ -1,3 +1,4 @@
-import QuantemModel.Model.DatasetProto
-/- C03 driver: the Dataset state machine over the JSON-lines protocol (codec in Model/DatasetProto.lean). -/
-def main : IO Unit := QuantemModel.Proto.run ({} : DrvC03.St) DrvC03.step
+import QuantemModel.Model.DatasetProtoExt
+/- C03 driver: the Dataset state machine with its input forms over the JSON-lines protocol
+(codec in Model/DatasetProto.lean + Model/DatasetProtoExt.lean). -/
+def main : IO Unit := QuantemModel.Proto.run ({} : DrvC03.St) DrvC03X.step
